@@ -192,7 +192,8 @@ def io_cases(rng, n):
             out.append({"kind": "io", "delim": "\n", "chunks_hex": [p.hex() for p in parts]})
     for _ in range(n):
         L = rng.randint(1, 10)
-        s = "".join(rng.choice(["a", "\r", "\n", "\r\n", "é", "b"]) for _ in range(L)).encode()
+        alpha = ["a", "\r", "\n", "\r\n", "b"] + (["é", "€"] if rng.random() < 0.4 else [])
+        s = "".join(rng.choice(alpha) for _ in range(L)).encode()
         parts = [p.encode("latin1") for p in random_cuts(rng, s.decode("latin1"))]
         out.append({"kind": "io", "delim": "\n", "chunks_hex": [p.hex() for p in parts]})
     return out
